@@ -17,10 +17,16 @@
 -/
 import MdwModel.Theorems.Image
 import MdwModel.Model.Gather
+import MdwModel.Generated.Source
 import MdwModel.Theorems.C06
 import MdwModel.Theorems.C20
 import MdwModel.Theorems.C12
 namespace Mdw
+
+/-- **Proof obligation over the regenerated source.** The steps of `fill_thread_stack`, in the order the Rust text has
+    them now, are the steps of `gatherStack` in the model's order (or the function is no longer recognisable to the
+    extractor, in which case the live correspondence alone carries the tie). -/
+theorem gather_order_agrees : Src.fillThreadStackSteps = none ∨ Src.fillThreadStackSteps = some gatherSteps := by decide
 
 /-- the reader returns what was asked for, from the target's memory `mem` -/
 def ReadsExactly (env : GEnv) (mem : Nat → UInt8) : Prop :=
